@@ -524,7 +524,7 @@ func (e *vC05Exec) recover(point string, step int, before, after []vRefRec, hwBe
 	obs := &vC05Obs{point: point, step: step, kind: e.cur, disk: vC05Disk(c.dir)}
 	c.stats["crash/"+e.cur+"/"+point]++
 	if c.l == nil { // crashed inside the very first commitlog.New
-		c.l = &commitLog{closed: make(chan struct{})}
+		c.l = &commitLog{closed: make(chan struct{}), Options: Options{Path: c.dir}}
 	}
 	bad := func(kind, what string) {
 		c.viol = true
